@@ -181,6 +181,9 @@ def check(prop, tier, only=None, list_only=False):
     budget = getattr(mod, "BUDGET_S", {}).get(tier)
     evdir = os.path.join(ROOT, "evidence")
     os.makedirs(os.path.join(evdir, "replays"), exist_ok=True)
+    for fn in os.listdir(os.path.join(evdir, "replays")):      # stale replays of earlier runs of this property/tier
+        if fn.startswith("%s-%s-" % (prop, tier)):
+            os.remove(os.path.join(evdir, "replays", fn))
 
     machinery_errors = []
     try:
